@@ -22,9 +22,10 @@ CLAIM = dict(
          "filename laws (result over [A-Za-z0-9_.-], never starts with '.' or '_', no separator/blank/NUL, idempotent; NFKD as a "
          "section variable with contract identity-on-ASCII). safe_join's rejection disjunction, its normalisation guard and default "
          "directory, and secure_filename's character class and constants are regenerated from the source on every run; the model is "
-         "compared with werkzeug and with the interpreter's posixpath on ~80k cases per quick run (exhaustive 1- and 2-component "
-         "tuples over the property's atoms x all base kinds), and exercised end to end through send_from_directory and "
-         "SharedDataMiddleware over a temporary tree with a sentinel outside the root.",
+         "compared with werkzeug and with the interpreter's posixpath on ~290k cases per quick run (every 1- and 2-component tuple "
+         "over the property's atoms and assembled components, every 3-component tuple over the atoms, x 16 bases of all four kinds), "
+         "and exercised end to end through send_from_directory and SharedDataMiddleware (directory, package and file exports) over a "
+         "temporary tree with sentinels outside the root (~40k requests).",
     note="Trusted: Coq kernel; translator tools/c14.py; extraction + driver; hand-written posixpath model (validated differentially "
          "against the interpreter); POSIX path semantics (os.sep '/', no altsep, os.name != 'nt') as in the property's quantifier; "
          "unicodedata.normalize('NFKD') is a section variable (identity on ASCII, checked over all 128 ASCII characters at run time); "
@@ -521,7 +522,8 @@ def _e2e(chk, wutils, SharedDataMiddleware, EnvironBuilder, NotFound, corpus) ->
             os.chdir(cwd)
             for cs in paths:
                 path = "/".join(cs)
-                inp = {"op": "send_from_directory", "directory": base, "cwd": cwd.replace(T, "<T>"), "path": path}
+                inp = {"op": "send_from_directory", "directory": base.replace(T, "<T>"), "cwd": cwd.replace(T, "<T>"),
+                       "path": path.replace(T, "<T>")}
                 try:
                     resp = with_timeout(wutils.send_from_directory, 5, base, path, environ)
                     status, body = resp.status_code, _body(resp.response)
@@ -557,7 +559,7 @@ def _e2e(chk, wutils, SharedDataMiddleware, EnvironBuilder, NotFound, corpus) ->
         for prefix in ["/static", "/s2", "/pkg", "/file", "/rel", "", "/static/..", "/pkg/../static"]:
             for cs in paths:
                 url_path = prefix + "/" + "/".join(cs)
-                inp = {"op": "SharedDataMiddleware", "PATH_INFO": url_path}
+                inp = {"op": "SharedDataMiddleware", "PATH_INFO": url_path.replace(T, "<T>")}
                 env = dict(environ)
                 # the server hands over the percent-decoded path, as latin-1 text
                 env["PATH_INFO"] = url_path.encode("utf-8", "surrogatepass").decode("latin-1")
@@ -609,8 +611,55 @@ def replay(rep) -> int:
         print(f"secure_filename({inp['filename']!r}) = {r!r}; again = {wutils.secure_filename(r)!r}")
         ok = re.fullmatch(r"[A-Za-z0-9_.-]*", r) and not r.startswith(".") and wutils.secure_filename(r) == r
         return 0 if ok else 1
+    if op in ("send_from_directory", "SharedDataMiddleware"):
+        from werkzeug.exceptions import NotFound
+        from werkzeug.middleware.shared_data import SharedDataMiddleware
+        from werkzeug.test import EnvironBuilder
+        import importlib
+        import sys
+        top, T, inside, outside = _mk_tree()
+        cwd0 = os.getcwd()
+        sys.path.insert(0, os.path.join(T, "pkgs"))
+        importlib.invalidate_caches()
+        try:
+            environ = EnvironBuilder(path="/").get_environ()
+            root = os.path.join(T, "root")
+            if op == "send_from_directory":
+                os.chdir(inp["cwd"].replace("<T>", T))
+                try:
+                    resp = wutils.send_from_directory(inp["directory"].replace("<T>", T), inp["path"].replace("<T>", T), environ)
+                    status, body = resp.status_code, _body(resp.response)
+                except NotFound:
+                    status, body = 404, b""
+            else:
+                os.chdir(T)
+
+                def fallback(environ, start_response):
+                    start_response("404 NOT FOUND", [])
+                    return [b"FALLBACK"]
+                mw = SharedDataMiddleware(fallback, {"/static": root, "/s2/": root, "/pkg": ("c14pkg", "data"),
+                                                     "/file": os.path.join(root, "index.txt"), "/rel": "root"})
+                env = dict(environ)
+                env["PATH_INFO"] = inp["PATH_INFO"].replace("<T>", T).encode("utf-8", "surrogatepass").decode("latin-1")
+                seen = {}
+                body = _body(mw(env, lambda st, h, e=None: seen.update(status=int(st.split()[0]))))
+                status = seen.get("status")
+            print(f"{op}: status {status}, body {body[:80]!r}")
+            bad = body in outside or body.startswith(b"SENTINEL-OUTSIDE") or (status == 200 and body != b"FALLBACK" and body not in inside)
+            print("oracle:", "served a file outside the root" if bad else "fine")
+            return 1 if bad else 0
+        except Exception as e:  # noqa: BLE001
+            print(f"{op} raised {type(e).__name__}: {e}")
+            return 1
+        finally:
+            os.chdir(cwd0)
+            try:
+                sys.path.remove(os.path.join(T, "pkgs"))
+            except ValueError:
+                pass
+            sys.modules.pop("c14pkg", None)
+            shutil.rmtree(top, ignore_errors=True)
     print("input:", json.dumps(inp, indent=1, default=repr))
-    print("(end-to-end inputs need the temporary tree: re-run ./check C14, the corpus replays them)")
     return 0
 
 
